@@ -192,25 +192,45 @@ Proof.
   replace (2 ^ 64 - u <? 2 ^ 63) with false by lia. lia.
 Qed.
 
+Lemma uint_res_ok : forall d u r st, (signedInt d = true -> u < 2 ^ 63) ->
+  uint_res d u r st = Ok (norm_uint d u, r, st).
+Proof.
+  intros d u r st H. unfold uint_res, norm_uint. destruct (signedInt d); [|reflexivity].
+  replace (2 ^ 63 <=? u) with false by (specialize (H eq_refl); lia). reflexivity.
+Qed.
+
+Lemma uint_res_inv : forall o u r st x r' st',
+  uint_res o u r st = Ok (x, r', st') -> r' = r /\ st' = st /\ depth x = 0%nat.
+Proof.
+  intros o u r st x r' st'. unfold uint_res. destruct (signedInt o); [destruct (2 ^ 63 <=? u); [discriminate|]|];
+    intros H; inversion H; subst; auto.
+Qed.
+
+Lemma uint_res_not_oof : forall o u r st, uint_res o u r st <> OutOfFuel.
+Proof. intros. unfold uint_res. destruct (signedInt o); [destruct (2 ^ 63 <=? u)|]; discriminate. Qed.
+
+Lemma uint_res_overflow : forall o u r st, signedInt o = true -> 2 ^ 63 <= u -> uint_res o u r st = Err EOverflow.
+Proof. intros o u r st H1 H2. unfold uint_res. rewrite H1. replace (2 ^ 63 <=? u) with true by lia. reflexivity. Qed.
+
 Lemma enc_uint_dec : forall d rf lf dep st rest vd pos v,
-  v < 2 ^ 64 ->
+  v < 2 ^ 64 -> (pos = true -> signedInt d = true -> v < 2 ^ 63) ->
   (vd = 1 /\ pos = true) \/ (vd = 2 /\ pos = false /\ 2 <= v <= 2 ^ 63) ->
   dec d (S rf) lf dep st (enc_uint (if pos then vdPosInt else vdNegInt) pos v ++ rest)
   = Ok (uint_result d pos v, rest, st).
 Proof.
-  intros d rf lf dep st rest vd pos v Hv Hc. unfold enc_uint.
+  intros d rf lf dep st rest vd pos v Hv Hsg Hc. unfold enc_uint.
   destruct (v =? 0) eqn:E0.
   { cbn [app]. rewrite dec_scalar_bd by (consts; lia). scal.
-    destruct Hc as [[_ ->]|[_ [_ ?]]]; [|lia]. replace v with 0 by lia. reflexivity. }
+    destruct Hc as [[_ ->]|[_ [_ ?]]]; [|lia]. replace v with 0 by lia. rewrite uint_res_ok by (intros; lia). reflexivity. }
   destruct (pos && (v <=? 16)) eqn:E1.
   { cbn [app]. rewrite dec_scalar_bd by (consts; lia). scal.
-    destruct pos; [|discriminate]. cbn [uint_result]. unfold norm_uint.
-    replace (v - 1 + 1) with v by lia. reflexivity. }
+    destruct pos; [|discriminate]. cbn [uint_result].
+    replace (v - 1 + 1) with v by lia. rewrite uint_res_ok by auto. reflexivity. }
   assert (Hres : forall vs r',
      dec_uint vs r' = Ok (v, rest) -> vs < 16 ->
      dec d (S rf) lf dep st (mkbd (if pos then vdPosInt else vdNegInt) vs :: r') = Ok (uint_result d pos v, rest, st)).
   { intros vs r' Hu Hvs. rewrite dec_scalar_bd by (destruct pos; consts; lia).
-    destruct pos; scal; rewrite Hu; cbn [bind uint_result]; [reflexivity|].
+    destruct pos; scal; rewrite Hu; cbn [bind uint_result]; [rewrite uint_res_ok by auto; reflexivity|].
     destruct Hc as [[_ ?]|[_ [_ ?]]]; [discriminate|]. rewrite to_i64_neg by lia. reflexivity. }
   destruct (v <=? 255) eqn:E2.
   { cbn [app]. apply Hres; [|lia]. unfold dec_uint. cbn [N.leb N.compare N.to_nat]. apply rd_be_one. }
@@ -232,11 +252,11 @@ Proof.
   intros d rf lf dep st rest z Hz. unfold enc_int.
   destruct (0 <=? z)%Z eqn:E0.
   { change vdPosInt with (if true then vdPosInt else vdNegInt).
-    rewrite (enc_uint_dec d rf lf dep st rest 1 true) by (try lia; left; auto). reflexivity. }
+    rewrite (enc_uint_dec d rf lf dep st rest 1 true) by (try lia; try (left; auto); intros; lia). reflexivity. }
   destruct (z =? -1)%Z eqn:E1.
   { cbn [app]. rewrite dec_scalar_bd by (consts; lia). scal. replace z with (-1)%Z by lia. reflexivity. }
   change vdNegInt with (if false then vdPosInt else vdNegInt).
-  rewrite (enc_uint_dec d rf lf dep st rest 2 false) by (try lia; right; repeat apply conj; auto; lia).
+  rewrite (enc_uint_dec d rf lf dep st rest 2 false) by (try lia; try discriminate; right; repeat apply conj; auto; lia).
   cbn [uint_result]. repeat f_equal. lia.
 Qed.
 
@@ -692,8 +712,9 @@ Proof.
              match c with
              | (_ =? _) => destruct c
              end
-         end; intros H; try discriminate H; try (inversion H; subst; lia).
-  - bind_in H. split_pairs. inversion H; subst. eapply dec_uint_shorter; eauto.
+         end; intros H; try discriminate H; try (inversion H; subst; lia);
+    try (apply uint_res_inv in H; destruct H as (-> & _ & _); lia).
+  - bind_in H. split_pairs. apply uint_res_inv in H. destruct H as (-> & _ & _). eapply dec_uint_shorter; eauto.
   - bind_in H. split_pairs. inversion H; subst. eapply dec_uint_shorter; eauto.
   - bind_in H. split_pairs. inversion H; subst. eapply dec_float_shorter; eauto.
   - bind_in H. split_pairs. bind_in H. split_pairs. inversion H; subst.
@@ -714,8 +735,8 @@ Proof.
              match c with
              | (_ =? _) => destruct c
              end
-         end; try discriminate.
-  - destruct (dec_uint vs r) as [[a b]| |] eqn:E; cbn [bind]; try discriminate. exfalso; eapply dec_uint_not_oof; eauto.
+         end; try discriminate; try apply uint_res_not_oof.
+  - destruct (dec_uint vs r) as [[a b]| |] eqn:E; cbn [bind]; try discriminate; try apply uint_res_not_oof. exfalso; eapply dec_uint_not_oof; eauto.
   - destruct (dec_uint vs r) as [[a b]| |] eqn:E; cbn [bind]; try discriminate. exfalso; eapply dec_uint_not_oof; eauto.
   - destruct (dec_float vs r) as [[a b]| |] eqn:E; cbn [bind]; try discriminate. exfalso; eapply dec_float_not_oof; eauto.
   - destruct (dec_len vs r) as [[a b]| |] eqn:E; cbn [bind]; try discriminate.
@@ -1157,7 +1178,8 @@ Proof.
   - (* IInt *) apply scalar_case; [exact Hrf|exact HR|reflexivity|intros rf']. cbn [enc fst norm]. apply enc_int_dec. exact Hwf.
   - (* IUint *) apply scalar_case; [exact Hrf|exact HR|reflexivity|intros rf']. cbn [enc fst norm].
     change vdPosInt with (if true then vdPosInt else vdNegInt).
-    rewrite (enc_uint_dec d rf' lf dep dst rest 1 true) by (auto; exact Hwf). reflexivity.
+    destruct Hwf as [Hw1 Hw2].
+    rewrite (enc_uint_dec d rf' lf dep dst rest 1 true) by auto. reflexivity.
   - (* IF32 *) apply scalar_case; [exact Hrf|exact HR|reflexivity|intros rf']. cbn [enc fst norm]. apply enc_f32_dec. exact Hwf.
   - (* IF64 *) apply scalar_case; [exact Hrf|exact HR|reflexivity|intros rf']. cbn [enc fst norm]. apply enc_f64_dec. exact Hwf.
   - (* IStr *) destruct rf as [|rf']; [cbn [depth] in Hrf; lia|]. cbn [enc]. apply enc_str_dec; auto.
@@ -1227,12 +1249,12 @@ Proof.
     destruct (vs =? 4) eqn:?; [intros H; inversion H; subst; replace (vs <=? 8) with true by lia; reflexivity|].
     destruct (vs =? 5) eqn:?; [intros H; inversion H; subst; replace (vs <=? 8) with true by lia; reflexivity|].
     destruct (vs =? 6) eqn:?; [intros H; inversion H; subst; replace (vs <=? 8) with true by lia; reflexivity|].
-    destruct (vs =? 7) eqn:?; [intros H; inversion H; subst; replace (vs <=? 8) with true by lia; reflexivity|].
+    destruct (vs =? 7) eqn:?; [intros H; apply uint_res_inv in H; destruct H as (-> & -> & _); replace (vs <=? 8) with true by lia; reflexivity|].
     destruct (vs =? 8) eqn:?; [intros H; inversion H; subst; replace (vs <=? 8) with true by lia; reflexivity|].
     discriminate. }
-  destruct (vd =? 9) eqn:E9. { intros H; inversion H; subst; reflexivity. }
+  destruct (vd =? 9) eqn:E9. { intros H; apply uint_res_inv in H; destruct H as (-> & -> & _); reflexivity. }
   destruct (vd =? 1) eqn:E1.
-  { cbn [orb]. intros H. bind_in H. split_pairs. inversion H; subst. reflexivity. }
+  { cbn [orb]. intros H. bind_in H. split_pairs. apply uint_res_inv in H; destruct H as (-> & -> & _). reflexivity. }
   destruct (vd =? 2) eqn:E2.
   { cbn [orb]. intros H. bind_in H. split_pairs. inversion H; subst. reflexivity. }
   cbn [orb].
@@ -1419,8 +1441,9 @@ Proof.
              | (_ =? _) => destruct c
              end
          end; intros H; try discriminate H;
-    try (inversion H; subst; try reflexivity; destruct (signedInt o); reflexivity).
-  - bind_in H. split_pairs. inversion H; subst. destruct (signedInt o); reflexivity.
+    try (apply uint_res_inv in H; destruct H as (_ & _ & H); exact H);
+    try (inversion H; subst; reflexivity).
+  - bind_in H. split_pairs. apply uint_res_inv in H. destruct H as (_ & _ & H). exact H.
   - bind_in H. split_pairs. inversion H; subst. reflexivity.
   - bind_in H. split_pairs. inversion H; subst. reflexivity.
   - bind_in H. split_pairs. bind_in H. split_pairs. inversion H; subst. reflexivity.
@@ -1661,4 +1684,22 @@ Lemma dec_naked_deep : forall e d i est dst rest,
 Proof.
   intros e d i est dst rest Hwf HR H1 Hd. unfold dec_naked, fuel_r, fuel_l.
   apply deep_all; auto; lia.
+Qed.
+
+(* ================= SignedInteger: an unsigned value >= 2^63 is an overflow error (F07-1n) ================= *)
+Lemma dec_naked_signed_overflow : forall e d n est dst rest,
+  signedInt d = true -> 2 ^ 63 <= n -> n < 2 ^ 64 -> 1 <= maxdepth d ->
+  dec_naked d dst (fst (enc e false (IUint n) est) ++ rest) = Err EOverflow.
+Proof.
+  intros e d n est dst rest Hs Hlo Hhi Hm. unfold dec_naked, fuel_r.
+  destruct (N.to_nat (maxdepth d)) as [|rf] eqn:Erf; [lia|].
+  cbn [enc fst]. unfold enc_uint.
+  replace (n =? 0) with false by lia. replace (true && (n <=? 16)) with false by (cbn [andb]; lia).
+  replace (n <=? 255) with false by lia. replace (n <=? 65535) with false by lia.
+  assert (Hw : int_width n = 8%nat).
+  { unfold int_width. repeat match goal with |- context [?a <? ?b] => replace (a <? b) with false by lia end. reflexivity. }
+  rewrite Hw. cbn [app]. rewrite dec_scalar_bd by (consts; cbn; lia). scal.
+  unfold dec_uint. change (N.of_nat 8 - 1 <=? 7) with true. cbn iota.
+  change (S (N.to_nat (N.of_nat 8 - 1))) with 8%nat.
+  rewrite rd_be_put by lia. cbn [bind]. apply uint_res_overflow; assumption.
 Qed.
